@@ -6,7 +6,7 @@
    statements; the verified checker wf_check additionally re-establishes it per compiled case),
    so C01_compile_emit states the re-reading theorems for every accepted program. *)
 From Coq Require Import List String.
-From PC Require Import Comp.Syntax Comp.Compile Comp.Denote Comp.EmitProofs Comp.WfCheck Comp.WfPil Comp.CompileProofs.
+From PC Require Import Comp.Syntax Comp.Compile Comp.Denote Comp.EmitProofs Comp.WfCheck Comp.WfPil Comp.CompileProofs Comp.Struct Comp.Wild Comp.OrderProofs.
 Import ListNotations.
 
 Theorem C01_emit_defs : forall c, WF c -> pil_defs (emit_comp c) [] = Some (final_env c).
@@ -59,3 +59,46 @@ Theorem C01_compile_emit : forall ctr prefix d body c ctr', forallb stmt_ok body
     map (fun '(n, t) => (c_prefix c +++ n, t_dummy t, Some (flatB c (s_base (t_sup t))), s_len (t_sup t))) (c_strands c).
 Proof. exact compile_emit_defs. Qed.
 Print Assumptions C01_compile_emit.
+
+(* ---- source to object: nothing dropped, reordered or re-oriented ----
+   spec_seqs / clean_spec are the written item list: references keep their star, domains(X) is
+   replaced by X's items (reversed and flipped when starred), each quoted region becomes a fresh
+   anonymous sequence at its written position. *)
+Theorem C01_strand_written : forall ctr prefix d pre dummy name items len post c ctr',
+  compile_comp ctr prefix d (pre ++ SStrand dummy name items len :: post) = OK (c, ctr') ->
+  exists c1 ctr1 t, steps (empty_comp prefix, ctr) pre = OK (c1, ctr1) /\
+    afind (c_strands c) name = Some t /\ t_dummy t = dummy /\
+    s_seqs (t_sup t) = spec_seqs (anon_name (ctr1 + count_plain (clean_spec c1 items))) (clean_spec c1 items) ctr1 /\
+    (forall L, len = Some L -> s_len (t_sup t) = L).
+Proof. exact compile_strand_written. Qed.
+Print Assumptions C01_strand_written.
+
+Theorem C01_sup_written : forall ctr prefix d pre name items len post c ctr', composite_items items = true ->
+  compile_comp ctr prefix d (pre ++ SSeq name items len :: post) = OK (c, ctr') ->
+  exists c1 ctr1 s, steps (empty_comp prefix, ctr) pre = OK (c1, ctr1) /\
+    afind (c_sups c) name = Some s /\
+    s_seqs s = spec_seqs (anon_name (ctr1 + count_plain (clean_spec c1 items))) (clean_spec c1 items) ctr1.
+Proof. exact compile_sup_written. Qed.
+Print Assumptions C01_sup_written.
+
+Theorem C01_seq_written : forall ctr prefix d pre name ps len post c ctr',
+  compile_comp ctr prefix d (pre ++ SSeq name [INuc ps] len :: post) = OK (c, ctr') ->
+  exists l k, get_length_const len ps = WOk l k /\
+    afind (c_bases c) name = Some {| b_len := l; b_const := k; b_anon := false |}.
+Proof. exact compile_seq_written. Qed.
+Print Assumptions C01_seq_written.
+
+Theorem C01_struct_written : forall ctr prefix d pre opt name names domain sn post c ctr',
+  compile_comp ctr prefix d (pre ++ SStruct opt name names domain sn :: post) = OK (c, ctr') ->
+  exists c1 ctr1 s0 ts u, steps (empty_comp prefix, ctr) pre = OK (c1, ctr1) /\ compile_snot sn = OK s0 /\
+    find_strands c1 names = OK ts /\ afind (c_structs c) name = Some u /\
+    u_opt u = opt /\ u_strands u = names /\
+    (if domain then domain_expand s0 (map (fun t => map (ref_len c1) (s_seqs (t_sup t))) ts) else OK s0) = OK (u_struct u).
+Proof. exact compile_struct_written. Qed.
+Print Assumptions C01_struct_written.
+
+Theorem C01_kin_written : forall ctr prefix d pre low high ins0 outs post c ctr',
+  compile_comp ctr prefix d (pre ++ SKin low high ins0 outs :: post) = OK (c, ctr') ->
+  exists K1 K2, c_kins c = K1 ++ {| k_low := low; k_high := high; k_ins := ins0; k_outs := outs |} :: K2.
+Proof. exact compile_kin_written. Qed.
+Print Assumptions C01_kin_written.
